@@ -26,6 +26,9 @@ SOLVERS = {
     "map": ["sqpmethod", {"max_iter": 0, "print_time": False, "print_header": False, "print_iteration": False, "print_status": False,
                           "qpsol": "qrqp", "qpsol_options": {"print_iter": False, "print_header": False, "print_info": False, "error_on_fail": False}}],
     "conv": ["ipopt", {"ipopt.print_level": 0, "print_time": False, "ipopt.tol": 1e-10, "ipopt.max_iter": 200}],
+    # loose: stops early, so the result depends on the starting point; both sides run the same deterministic
+    # algorithm from what must be the same (x0, p), so the comparison can still be tight
+    "loose": ["ipopt", {"ipopt.print_level": 0, "print_time": False, "ipopt.tol": 1e-2, "ipopt.max_iter": 60}],
 }
 
 
@@ -105,7 +108,7 @@ def gen_convex(r):
     elif r.random() < 0.3:
         m["grid"] = {"cls": "Geometric", "growth": 2, "local": r.random() < 0.5}
     ops.append({"op": "method", "m": m})
-    mode = G.pick(r, ["map", "map", "conv"])
+    mode = G.pick(r, ["map", "map", "conv", "loose"])
     ops.append({"op": "solver", "name": SOLVERS[mode][0], "opts": jcopy(SOLVERS[mode][1])})
     for p in ps:
         ops.append({"op": "set_value", "p": p, "v": G.rnum(r)})
@@ -130,7 +133,13 @@ def gen_to_function(r, info):
         if whole and len(info["xs"]) > 1:
             cands += [["sample_xall", "*"]]
         else:
-            cands += [["sample_x", x] for x in info["xs"]]
+            for x in info["xs"]:
+                # 'control-' leaves out the final node; used only for a state without a current guess, so that the
+                # final node provably starts from zero on both sides
+                if x not in info.get("guessed", ()) and r.random() < 0.4:
+                    cands.append(["sample_x-", x])
+                else:
+                    cands.append(["sample_x", x])
     r.shuffle(cands)
     args = cands[: r.randint(1, len(cands))]
     if info.get("zs") and r.random() < 0.7:
@@ -169,7 +178,7 @@ def gen_val(r, a, info):
     k = a[0]
     if k in ("value", "value_v"):
         return G.rnum(r)
-    if k in ("sample_p", "sample_u", "sample_v"):
+    if k in ("sample_p", "sample_u", "sample_v", "sample_x-"):
         return [[G.rnum(r) for _ in range(N)]]
     if k == "sample_uall":
         return [[G.rnum(r) for _ in range(N)] for _ in info["us"]]
@@ -215,19 +224,26 @@ class World19:
         if a.ocp is None:
             return "skipped"
         if k == "solve":
-            self.seam.mode = "stub"
+            self.seam.mode = step.get("mode", "stub")
             self.seam.next_fault = step.get("fault")
+            n0 = self.seam.reached
             try:
                 a.ocp.solve() if step.get("how", "solve") == "solve" else a.ocp.solve_limited()
                 out = "ok"
+                if step.get("mode") == "real":
+                    self.probe("real_solve_succeeded")
             except (S.SolverFailure, KeyboardInterrupt):
                 out = "raised:solver"
                 f = "solver_" + str(step.get("fault"))
                 self.stats["faults"][f] = self.stats["faults"].get(f, 0) + 1
             except Exception as e:
                 out = "raised:" + type(e).__name__
-                self.tainted = True
+                if self.seam.reached > n0 and step.get("mode") == "real":
+                    self.stats["faults"]["real_solver_failed"] = self.stats["faults"].get("real_solver_failed", 0) + 1
+                else:
+                    self.tainted = True
             self.seam.next_fault = None
+            self.seam.mode = "stub"
             return out
         if k == "to_function":
             return self.to_function(step)
@@ -260,6 +276,8 @@ class World19:
             return o.sample(s, grid="control-")[1]
         if k == "sample_x":
             return o.sample(s, grid="control")[1]
+        if k == "sample_x-":
+            return o.sample(s, grid="control-")[1]
         raise ValueError(a)
 
     def to_function(self, step):
@@ -312,6 +330,15 @@ class World19:
                 rep.apply({"op": "set_value", "p": n, "v": {"as": "np", "v": v}})
             elif k == "value_v":
                 rep.apply({"op": "set_initial", "x": n, "g": ["num", v]})
+            elif k == "sample_x-":
+                # N columns for the nodes 0..N-1; the final node keeps the guess it has (zero if never given):
+                # the reference model says which
+                from . import oracles
+
+                tc, _ = oracles.times(spec)
+                g = dict((x, gg) for x, gg in spec.initial).get(n)
+                last = float(oracles.guess_matrix(g, 1, [tc[-1]], [spec.method["N"]])[0, 0])
+                rep.apply({"op": "set_initial", "x": n, "g": ["arr", [list(v[0]) + [last]], "np"]})
             elif k == "z":
                 # column k of the "z" argument is the guess of the algebraic variables on control interval k
                 N = spec.method["N"]
@@ -359,8 +386,9 @@ class World19:
         if not isinstance(got, (list, tuple)):
             got = [got]
         got = [np.atleast_2d(np.array(ca.DM(g), dtype=float)) for g in got]
-        mode = "map" if ent["spec"].solver[0] == "sqpmethod" else "conv"
-        tol = 1e-9 if mode == "map" else 2e-5
+        so = ent["spec"].solver
+        mode = "map" if so[0] == "sqpmethod" else ("loose" if so[1].get("ipopt.tol", 0) >= 1e-3 else "conv")
+        tol = {"map": 1e-9, "conv": 2e-5, "loose": 1e-6}[mode]
         variants = [("at-creation", ent["spec"])]
         if self.act.spec.to_json() != ent["spec"].to_json():
             variants.append(("at-evaluation", self.act.spec))
@@ -410,6 +438,8 @@ def gen_run(r, w, emit):
             d = {"op": "solve", "how": G.pick(r, ["solve", "solve_limited"])}
             if r.random() < 0.3:
                 d["fault"] = G.pick(r, ["fail_before", "fail_after", "interrupt"])
+            elif r.random() < 0.6:
+                d["mode"] = "real"  # the real solver runs (and, with ipopt, succeeds) before the function is exported
             emit(d)
         else:
             m = dict(sp.method)
@@ -424,11 +454,15 @@ def gen_run(r, w, emit):
         tg = G.guess_targets(sp)
         t, sd = G.pick(r, tg)
         emit({"op": "set_initial", "x": t, "g": G.gen_guess(r, t, sd, N, cfg)})
-        emit({"op": "solve", "how": "solve"})
+        d = {"op": "solve", "how": "solve"}
+        if r.random() < 0.5:
+            d["mode"] = "real"
+        emit(d)
         emit({"op": "set_initial", "x": t, "g": G.gen_guess(r, t, sd, N, cfg)})
     if r.random() < 0.4:
         x = G.pick(r, info["xs"])
         emit({"op": "set_initial", "x": x, "g": ["expr", G.gen_time_expr(r)]})
+    info["guessed"] = set(x for x, g in sp.initial)
     args, res, vals = gen_to_function(r, info)
     emit({"op": "to_function", "name": "F1", "args": args, "results": res})
     for i in range(r.randint(0, 3)):
